@@ -8,7 +8,7 @@ from typing import Dict, List, Optional, Set, Tuple
 
 from .core import AnalysisError, Ctx, IdiomNotFound, rule
 from .pipeline import CLI_REL, COMPILER_REL, VISITORS_REL, option_slice, pipeline
-from .pyast import ClassInfo, call_name, is_self_attr, names_loaded, pyfacts, unparse, walk_no_nested
+from .pyast import ClassInfo, ast_contains, call_name, is_self_attr, names_loaded, pyfacts, unparse, walk_no_nested
 
 BASE_VISITOR = "BasicConstructVisitor"
 
@@ -155,7 +155,9 @@ def p10(ctx: Ctx):
         m = re.fullmatch(r"(\w+)\.(\w+)", unparse(k.value))
         ctx.need(m is not None, f"{cls}({kw}=)", f"value `{unparse(k.value)}` is not `<pass>.<set>`")
         src = next((q for q in P.passes if q.var == m.group(1)), None)
-        ctx.need(src is not None, f"{cls}({kw}=)", f"`{m.group(1)}` is not a pass object")
+        if src is None:
+            ctx.ob(f"{cls}<-{m.group(1)}", False, f"`{cls}` reads `{unparse(k.value)}` but `{m.group(1)}` is never run over the program: the exclusion set is always empty", file=COMPILER_REL, line=p_.ctor.lineno)
+            return p_, None, m.group(2)
         return p_, src, m.group(2)
 
     def collects(cls: str) -> Optional[str]:
@@ -177,8 +179,8 @@ def p10(ctx: Ctx):
         return None
 
     al, src, attr = source_of("StrVarAllocatorVisitor", "dimmed_var_names")
-    kind = collects(src.cls)
-    ctx.need(kind is not None, src.cls, "cannot tell which DIMmed names this pass collects")
+    kind = collects(src.cls) if src is not None else "nothing"
+    kind = kind or "nothing"
     ok = kind == "all"
     ctx.ob(
         "StrVarAllocatorVisitor<-all-dimmed-names",
@@ -189,12 +191,19 @@ def p10(ctx: Ctx):
         witness="" if ok else "10 DIM A$ / 20 A$=\"X\" with -s 80",
     )
     dl, src2, attr2 = source_of("DeclareImplicitArraysVisitor", "dimmed_var_names")
-    kind2 = collects(src2.cls)
-    ctx.need(kind2 is not None, src2.cls, "cannot tell which DIMmed names this pass collects")
+    kind2 = (collects(src2.cls) if src2 is not None else "nothing") or "nothing"
     ok2 = kind2 in ("all", "arrays")
     ctx.ob("DeclareImplicitArraysVisitor<-dimmed-arrays", ok2, "" if ok2 else f"DeclareImplicitArraysVisitor excludes the names collected by `{src2.cls}` ({kind2}): arrays the source DIMs are declared again with bound 10", file=COMPILER_REL, line=dl.ctor.lineno)
+    # the pre-initialiser skips every DIMmed name (DIM itself creates and clears them)
+    vk = collects("VarInitializerVisitor") or "nothing"
+    vi = py.cls("VarInitializerVisitor").properties.get("assignment_lines")
+    diff_ok = vi is not None and ast_contains(vi, "self._vars - self._dimmed_var_names")
+    okv = vk == "all" and diff_ok
+    ctx.ob("VarInitializerVisitor:skips-dimmed-names", okv, "" if okv else f"VarInitializerVisitor records {vk} of the DIMmed names / no longer subtracts them: a variable the source DIMs is also assigned in the prologue, i.e. used before its DIM", file=VISITORS_REL, line=py.cls("VarInitializerVisitor").node.lineno)
     # the source pass has run before its set is read
     for user, s_ in ((al, src), (dl, src2)):
+        if s_ is None:
+            continue
         okb = s_.index < user.index
         ctx.ob(f"{s_.cls}<{user.cls}", okb, "" if okb else f"`{s_.cls}` runs after `{user.cls}` reads its set", file=COMPILER_REL, line=user.line)
 
@@ -391,6 +400,9 @@ def p3(ctx: Ctx):
             dflt = rec["kw"].get("default")
             if not (isinstance(dflt, ast.Constant) and dflt.value == 32):
                 problems.append(f"flag {flag} does not default to BASIC09's 32 bytes")
+        req = rec["kw"].get("required")
+        if isinstance(req, ast.Constant) and req.value is True:
+            problems.append(f"flag {flag} is declared required=True: every invocation without it is rejected")
         ctx.ob(f"{flag}->{kwname}", not problems, "; ".join(problems), file=CLI_REL, line=rec["line"], facts={"dest": rec["dest"], "action": act})
     # no two flags share a destination
     dests: Dict[str, List[str]] = {}
@@ -525,6 +537,8 @@ def p4(ctx: Ctx):
     brk_sub = py.is_subclass("BasicOnBrkGoStatement", "BasicOnErrGoStatement") or py.is_subclass("BasicOnErrGoStatement", "BasicOnBrkGoStatement")
     okx = exact or not brk_sub
     ctx.ob("collector:exact-type", okx, "" if okx else "the handler collector no longer compares exact types although the two handler classes are related: one ON ERR plus one ON BRK would be refused / counted together", file=VISITORS_REL, line=vs.lineno)
+    okap = ast_contains(vs, "self._statements.append($s)")
+    ctx.ob("collector:appends", okap, "" if okap else "StatementCollectorVisitor no longer records the statements it is looking for: duplicate handlers are never refused and the error dispatcher is never generated", file=VISITORS_REL, line=vs.lineno)
     # 2. line number bound
     lc = py.cls("LineNumberCheckerVisitor")
     vl = lc.methods.get("visit_line")
